@@ -151,7 +151,8 @@ def gen_spec(rng, profile="full"):
             c["external"] = True
             if c["ncvar"] is None:
                 c["ncvar"] = names.draw(VAR_NAMES + ["ext1", "ext2", "ext3"], 1.0)
-            if rng.random() < 0.5:
+            c["props"].pop("comment", None)   # a file-descriptor property: becomes a global attribute of the external file
+            if rng.random() < 0.15:
                 # as read from a file whose external variable was not resolved
                 c["nodata"] = True
                 c["axes"] = []
@@ -257,7 +258,7 @@ def gen_spec(rng, profile="full"):
 
 def gen_bounds(rng, names, c):
     b = {"n": rng.choice([2, 2, 2, 4]), "ncvar": names.draw(["xb", "yb", "tb", "bnds"], 0.4),
-         "ncdim": names.draw(DIM_NAMES, 0.3), "props": {}}
+         "ncdim": names.draw(DIM_NAMES, 0.08), "props": {}}
     if rng.random() < 0.04 and "units" in c["props"]:
         b["props"]["units"] = c["props"]["units"]   # probe: F01g
     if rng.random() < 0.1:
@@ -305,7 +306,7 @@ def gen_options(rng, spec, default=False):
                 o.pop("fletcher32", None)
                 o["shuffle"] = False
     if rng.random() < 0.4 and o["fmt"] in ("NETCDF4", "NETCDF4_CLASSIC"):
-        o["endian"] = rng.choice(["little", "big", "native"])
+        o["endian"] = rng.choice(["little", "little", "native", "native", "native", "big"])
     if rng.random() < 0.3:
         o["group"] = False
     if rng.random() < 0.3:
@@ -368,13 +369,15 @@ def expected_findings(spec, opts):
     with_dim = {c["axes"][0] for c in cons if c["type"] == "dim"}
     if any(isinstance(a, int) and a not in with_dim for cm in spec["cms"] for a in cm["axes"]):
         out.append("cell-method-axis-without-dimension-coordinate-equals")
-    if opts.get("fmt") == "NETCDF4_CLASSIC" and "_FillValue" in spec["props"] and cons:
+    if opts.get("fmt") == "NETCDF4_CLASSIC" and "_FillValue" in spec["props"]:
         out.append("netcdf4-classic-fill-value-after-data")
     if any(c.get("dtype") == "S" and c.get("mask") for c in cons) or ((spec.get("data") or {}).get("dtype") == "S"
                                                                      and spec["data"].get("mask")):
         out.append("string-array-wider-than-its-longest-element-equals")
     if any(c.get("nodata") and not c["axes"] for c in cons):
         out.append("construct-without-axes-equals-raises")
+    if sum(1 for c in cons if c.get("external") and not c.get("nodata")) >= 2:
+        out.append("second-external-variable-not-resolved")
     # size-1 axes that the data do not span
     for a in range(len(spec["axes"])):
         if a in sp:
@@ -462,6 +465,8 @@ def build_cases(chk):
         cases.append({"example": n, "domain": True, "options": {"fmt": "NETCDF3_CLASSIC", "group": False}, "fam": "example-domain"})
     for spec, o in CORPUS:
         cases.append({"spec": copy.deepcopy(spec), "options": dict(o), "fam": "corpus"})
+    cases.append({"spec": copy.deepcopy(F01M), "options": {}, "fam": "corpus",
+                  "expect_attr": ["air_temperature", "cell_methods", "longitude: mean"]})
     nfull, ncore = (2400, 1500) if T else (420, 330)
     for _ in range(nfull):
         spec = gen_spec(rng, "full")
@@ -477,6 +482,15 @@ def build_cases(chk):
         cases.append({"spec": spec, "options": o, "fam": "core"})
     return cases
 
+
+# F01m: a scalar auxiliary coordinate was registered under the LAST domain axis of the field, so a cell
+# method of that axis was written with the scalar coordinate's name ("height: mean")
+F01M = {"kind": "field", "props": {"standard_name": "air_temperature"}, "ncvar": None,
+        "axes": [{"size": 1, "ncdim": None, "unlimited": False}, {"size": 3, "ncdim": None, "unlimited": False}],
+        "data": {"axes": [1], "dtype": "f8", "mask": False},
+        "cons": [{"type": "dim", "axes": [1], "props": {"standard_name": "longitude"}, "dtype": "f8", "ncvar": None, "mask": False},
+                 {"type": "aux", "axes": [0], "props": {"standard_name": "height"}, "dtype": "f8", "ncvar": None, "mask": False}],
+        "cms": [{"axes": [1], "method": "mean", "quals": {}}], "refs": []}
 
 # minimised earlier failures (spec, options); each is a witness through the public API
 CORPUS = [
@@ -516,6 +530,13 @@ def oracle(chk, cases, rows, stats):
             exp.append("netcdf4-classic-fill-value-after-data")
         if "example" in c and c["example"] == 1:
             exp.append("equal-constructs-share-a-variable")
+        if c.get("expect_attr") and "raw" in r:
+            vn, an, val = c["expect_attr"]
+            got = r["raw"]["vars"].get(vn, {}).get("attrs", {}).get(an)
+            if got != val:
+                chk.fail("property", "cell-method-names-scalar-coordinate-of-another-axis",
+                         f"attribute {vn}:{an} is {got!r}, expected {val!r}",
+                         {"input": {k: v for k, v in c.items() if k != "i"}, "expected": val, "observed": got})
         if "crash" in r:
             explained.add(c["i"])
             sig = "string-scalar-coordinate" if "string-scalar-coordinate" in exp else "worker-crash"
@@ -553,8 +574,158 @@ def oracle(chk, cases, rows, stats):
     return explained
 
 
+# ---------------------------------------------------------------- correspondence with the Coq model
+WORDS = ["a", "bc", "def", "gh", "ijklm", "n", "opq"]
+
+
+def str_width(shape_n, base):
+    return max(len(WORDS[(base + j) % len(WORDS)] + str((base + j) % 3)) for j in range(max(shape_n, 1)))
+
+
+def in_model(spec, opts):
+    """Is this case inside the fragment the Coq model covers?"""
+    if spec["kind"] != "field" or spec["refs"] or (spec["data"] or {}).get("dtype") == "S":
+        return False
+    sp = spanned(spec)
+    for c in spec["cons"]:
+        if c["type"] not in ("dim", "aux", "measure", "fanc") or c.get("external") or c.get("climatology") or c.get("nodata"):
+            return False
+        if c["type"] != "dim" and any(a not in sp for a in c["axes"]):
+            return False
+        if c.get("bounds") and c["bounds"]["props"]:
+            return False
+    for a in range(len(spec["axes"])):
+        if a not in sp and not any(c["type"] == "dim" and c["axes"] == [a] for c in spec["cons"]):
+            return False
+    for cm in spec["cms"]:
+        if cm["quals"] or any(not isinstance(a, int) for a in cm["axes"]):
+            return False
+    if opts.get("group") is False:
+        pass
+    return True
+
+
+def g_ostr(x):
+    return gopt(x, gstr)
+
+
+def g_skel(spec, opts):
+    char = opts.get("fmt", "NETCDF4") != "NETCDF4" or opts.get("string") is False
+    axes = glist(spec["axes"], lambda a: "{| a_size := %s; a_ncdim := %s; a_unlim := %s |}" % (
+        gz(a["size"]), g_ostr(a["ncdim"]), gbool(a["unlimited"])))
+    T = {"dim": "CDim", "aux": "CAux", "measure": "CMeasure", "fanc": "CFanc"}
+
+    def g_con(jc):
+        j, c = jc
+        b = c.get("bounds")
+        gb = "None" if not b else "(Some {| b_n := %s; b_ncvar := %s; b_ncdim := %s |})" % (
+            gz(b["n"]), g_ostr(b["ncvar"]), g_ostr(b["ncdim"]))
+        sl = "None"
+        if c.get("dtype") == "S" and char:
+            n = 1
+            for a in c["axes"]:
+                n *= spec["axes"][a]["size"]
+            sl = "(Some %s)" % gz(str_width(n, 11 * (j + 1)))
+        return "{| c_type := %s; c_axes := %s; c_std := %s; c_ncvar := %s; c_bounds := %s; c_strlen := %s; c_measure := %s |}" % (
+            T[c["type"]], glist(c["axes"], lib.gnat), g_ostr(c["props"].get("standard_name")), g_ostr(c["ncvar"]), gb, sl,
+            gstr(c.get("measure", "")))
+    cons = glist(list(enumerate(spec["cons"])), g_con)
+    cms = glist(spec["cms"], lambda m: "{| m_axes := %s; m_method := %s |}" % (glist(m["axes"], lib.gnat), gstr(m["method"])))
+    return "{| f_std := %s; f_ncvar := %s; f_axes := %s; f_data_axes := %s; f_cons := %s; f_cms := %s |}" % (
+        g_ostr(spec["props"].get("standard_name")), g_ostr(spec["ncvar"]), axes, glist(spec["data"]["axes"], lib.gnat), cons, cms)
+
+
+def g_opts(o):
+    return "{| o_fmt := %d; o_compress := %d; o_shuffle := %s; o_fletcher32 := %s; o_endian := %d; o_chunks := %d; o_coordinates := %s |}" % (
+        FORMATS.index(o.get("fmt", "NETCDF4")), int(o.get("compress", 0)), gbool(o.get("shuffle", True)),
+        gbool(o.get("fletcher32", False)), ["native", "little", "big"].index(o.get("endian", "native")),
+        ["4 MiB", "contiguous", "1 KiB", 64].index(o.get("hdf5_chunks", "4 MiB")), gbool(o.get("coordinates", False)))
+
+
+MODEL_ATTRS = ("bounds", "coordinates", "cell_measures", "ancillary_variables", "cell_methods")
+
+
+def printable(s):
+    return all(32 <= ord(ch) < 127 for ch in s)
+
+
+def raw_in_model(raw):
+    for v in raw["vars"].values():
+        for k, x in v["attrs"].items():
+            if k not in MODEL_ATTRS or not printable(x):
+                return False
+        if "(" in v["attrs"].get("cell_methods", "") or any(
+                w in v["attrs"].get("cell_methods", "").split() for w in ("where", "over", "within")):
+            return False
+    return not raw.get("gattrs", {}).get("external_variables") and not raw.get("groups")
+
+
+def g_ads(raw):
+    dims = glist(sorted(raw["dims"].items()), lambda kv: "(%s, (%s, %s))" % (gstr(kv[0]), gz(kv[1][0]), gbool(kv[1][1])))
+    vs = glist(list(raw["vars"].items()), lambda kv: "{| v_name := %s; v_dims := %s; v_attrs := %s |}" % (
+        gstr(kv[0]), glist(kv[1]["dims"], gstr),
+        glist(sorted((k, x) for k, x in kv[1]["attrs"].items() if k in MODEL_ATTRS), lambda p: "(%s, %s)" % (gstr(p[0]), gstr(p[1])))))
+    return "{| d_dims := %s; d_vars := %s |}" % (dims, vs)
+
+
+def g_rskel(r):
+    T = {"dim": "CDim", "aux": "CAux", "measure": "CMeasure", "fanc": "CFanc"}
+    cons = glist(r["cons"], lambda c: "{| r_type := %s; r_ncvar := %s; r_axes := %s; r_bounds := %s; r_bdim := %s; r_measure := %s |}" % (
+        T[c["type"]], gstr(c["ncvar"] or "?"), glist(c["axes"], gstr), g_ostr(c["bounds"]), g_ostr(c["bdim"]), gstr(c["measure"] or "")))
+    axes = glist(r["axes"], lambda a: "(%s, (%s, %s))" % (gstr(a[0]), gz(a[1]), gbool(a[2])))
+    cms = glist(r["cms"], lambda m: "(%s, %s)" % (glist([str(a) for a in m["axes"]], gstr), gstr(m["method"] or "")))
+    return "{| rs_ncvar := %s; rs_data_axes := %s; rs_axes := %s; rs_cons := %s; rs_cms := %s |}" % (
+        gstr(r["ncvar"] or "?"), glist(r["data_axes"], gstr), axes, cons, cms)
+
+
 def correspondence(chk, cases, rows, explained, stats):
-    return 0
+    wl, wc, rl, rc = [], [], [], []
+    for c, r in zip(cases, rows):
+        if r is None or "raw" not in r or "spec" not in c:
+            continue
+        spec, opts = c["spec"], c["options"]
+        names_ok = all(printable(x) for x in json.dumps(spec))
+        if in_model(spec, opts) and names_ok and not expected_findings(spec, {}):
+            wl.append("(%s, %s, %s)" % (g_opts(opts), g_skel(spec, opts), g_ads(r["raw"])))
+            wc.append((c, r))
+        if raw_in_model(r["raw"]) and "rskel" in r and r.get("n_read") == 1 and spec["kind"] == "field" and \
+                (spec["data"] or {}).get("dtype") != "S" and \
+                all(x["type"] != "danc" for x in r["rskel"]["cons"]):
+            rl.append("(%s, [%s])" % (g_ads(r["raw"]), g_rskel(r["rskel"])))
+            rc.append((c, r))
+    n = 0
+    if wl:
+        ol = ["(%s, %s)" % (g_opts(c["options"]), g_skel(c["spec"], c["options"])) for c, r in wc]
+        bad1 = lib.coq_bad_indices("C01", REQ, "check_one", ol, chunk=100)
+        stats["model-roundtrip-cases"] = len(ol)
+        for i in bad1[:10]:
+            c, r = wc[i]
+            chk.fail("correspondence", "model-roundtrip", "read_skel (write_skel o f) is not a single construct for a skeleton of the fragment",
+                     {"correspondence": "C01.Run.check_one", "input": {k: v for k, v in c.items() if k != "i"}})
+        bad = lib.coq_bad_indices("C01", REQ, "check_write", wl, chunk=60)
+        n += len(wl)
+        stats["model-write-cases"] = len(wl)
+        for i in bad[:25]:
+            c, r = wc[i]
+            if c["i"] in explained:
+                continue
+            chk.fail("correspondence", "model-vs-impl:write",
+                     "the file written differs from write_skel of the skeleton (dimensions / variables / reference attributes)",
+                     {"correspondence": "C01.Run.check_write", "input": {k: v for k, v in c.items() if k != "i"},
+                      "observed": r["raw"]})
+    if rl:
+        bad = lib.coq_bad_indices("C01", REQ, "check_read", rl, chunk=60)
+        n += len(rl)
+        stats["model-read-cases"] = len(rl)
+        for i in bad[:25]:
+            c, r = rc[i]
+            if c["i"] in explained:
+                continue
+            chk.fail("correspondence", "model-vs-impl:read",
+                     "the construct cfdm.read made differs from read_skel of the file",
+                     {"correspondence": "C01.Run.check_read", "input": {k: v for k, v in c.items() if k != "i"},
+                      "observed": {"raw": r["raw"], "rskel": r["rskel"]}})
+    return n
 
 
 def run(chk, model_ok):
